@@ -2,7 +2,7 @@ import Chartparse.Model.Imp
 /-! Big-step rules for `Imp.exec`: `Runs ext s env r` says that statement `s`, started in `env`, ends as `r` for every
     sufficiently large fuel. One rule per statement form; the loop rules are what the inductions in `Tie/Loop*.lean` use.
     Core Lean only. -/
-namespace Chartparse.Imp
+namespace Chartparse.PyImp
 open Chartparse
 
 def Runs (ext : Ext) (s : Stmt) (env : Env) (r : Res) : Prop := ∃ N, ∀ m, N ≤ m → exec ext m s env = r
@@ -279,4 +279,4 @@ def Returns (ext : Ext) (body : Stmt) (env : Env) (out : M Val) : Prop :=
   | .ok v => Runs ext body env (.ret v) ∨ (v = .none ∧ ∃ e, Runs ext body env (.norm e))
   | .error err => ∃ e, Runs ext body env (.exc err e)
 
-end Chartparse.Imp
+end Chartparse.PyImp
